@@ -494,7 +494,7 @@ def twin_params(draw, n):
         dim, delay = 1, 0
     return {"dim": dim, "delay": delay,
             "thr": draw(st.sampled_from(THRESHOLDS)),
-            "min_dist": draw(st.sampled_from([0, 1, 1, 2, 3, 5, 7, 8]))}
+            "min_dist": draw(st.sampled_from([0, 1, 1, 2, 3, 5, 7, 8, 11, 16]))}
 
 
 @st.composite
@@ -538,7 +538,7 @@ def twin_history_cases(draw):
 
 @st.composite
 def rp_twin_cases(draw):
-    n = draw(st.integers(4, 40))
+    n = draw(st.one_of(st.integers(4, 40), st.integers(16, 56)))
     x = draw(clustered_row(n))
     dim = draw(st.sampled_from([1, 1, 2, 3]))
     tau = draw(st.integers(1, 3))
@@ -547,7 +547,9 @@ def rp_twin_cases(draw):
     calls = []
     for _ in range(draw(st.integers(1, 3))):
         calls.append({"what": draw(st.sampled_from(["twins", "surrogates"])),
-                      "min_dist": draw(st.sampled_from([0, 1, 2, 3, 7])),
+                      # below, at and above the default (7)
+                      "min_dist": draw(st.sampled_from([0, 1, 2, 3, 7, 9, 12,
+                                                        20])),
                       "n_surr": draw(st.integers(1, 3)),
                       "a": draw(st.integers(0, 2 ** 32 - 1)),
                       "b": draw(st.integers(0, 2 ** 32 - 1))})
